@@ -22,6 +22,7 @@ var kindByType = map[string]string{
 	"dig.errInvalidGroupOption":  "groupOpt",
 	"dig.PanicError":             "panicErr",
 	"*exec.UserErr":              "user",
+	"*exec.NilErr":               "user",
 }
 
 func kindOf(err error) string {
@@ -56,6 +57,8 @@ func (r *run) classify(err error) *ErrC {
 		c.Root = "foreign"
 		if ue, ok := root.(*UserErr); ok {
 			c.Root = fmt.Sprintf("user:%d:%d", ue.Fn, ue.X)
+		} else if ne, ok := root.(*NilErr); ok && ne == nil {
+			c.Root = fmt.Sprintf("user:%d:%d", r.lastNil[0], r.lastNil[1])
 		} else if pe, ok := root.(dig.PanicError); ok {
 			if up, ok := asUserPanic(pe.Panic); ok {
 				c.Root = fmt.Sprintf("panic:%d:%d", up.Fn, up.X)
@@ -65,6 +68,8 @@ func (r *run) classify(err error) *ErrC {
 
 	if ue, ok := innermost.(*UserErr); ok && r.userErrs[[2]int{ue.Fn, ue.X}] == ue {
 		c.Is = errors.Is(err, ue)
+	} else if ne, ok := innermost.(*NilErr); ok && ne == nil {
+		c.Is = errors.Is(err, error((*NilErr)(nil)))
 	}
 	c.Cyc = dig.IsCycleDetected(err)
 	c.Viz = dig.CanVisualizeError(err)
